@@ -65,7 +65,7 @@ func be8(v int64) string {
 func runC13(c *fw.Ctx) {
 	var rules []bt.Rule
 	for _, col := range []struct{ f, q string }{{"f", "a"}, {"f", "b"}, {"nofam", "a"}} {
-		for _, n := range []int64{1, -1, math.MaxInt64, math.MinInt64} {
+		for _, n := range []int64{1, 0, -1, math.MaxInt64, math.MinInt64} { // 0: an increment that changes nothing still writes a new version
 			rules = append(rules, bt.Rule{Fam: col.f, Qual: []byte(col.q), IsInc: true, Inc: n})
 		}
 		for _, a := range []string{"", "x"} {
